@@ -1540,10 +1540,11 @@ def main(args=None):
     else:
         for vf in vfs_to_build:
             if vf.filename is not None:
-                # Only use basename to prevent path traversal attacks
-                filename = os.path.basename(vf.filename)
+                filename = vf.filename
             else:
                 filename = vf.name + ".{ext}"
+            # Only use basename to prevent path traversal attacks
+            filename = os.path.basename(filename)
             vf_name_to_output_path[vf.name] = os.path.join(output_dir, filename)
 
     vf_names_to_build = {vf.name for vf in vfs_to_build}
